@@ -113,6 +113,8 @@ struct Endpoint {
     int keypath = 0; // C++ families: 0 default constructor + set_key(full length), 1 key constructor (re-keying constructs anew)
 };
 
+static bool g_mask_extract_bad = false; // set by ep_key_objects, reported (and cleared) by the operation that caused it
+
 template <class T> static ascon::aead *make_cpp(Endpoint &e)
 {
     static_assert(sizeof(T) <= sizeof(e.cppmem), "cppmem too small");
@@ -144,6 +146,14 @@ static void ep_key_objects(Endpoint &e, bool re)
     case MASK:
         if (re) { if (alg == A80) ascon_masked_key_160_free(&e.u.mk160); else ascon_masked_key_128_free(&e.u.mk128); }
         if (alg == A80) ascon_masked_key_160_init(&e.u.mk160, k); else ascon_masked_key_128_init(&e.u.mk128, k);
+        // a masked key may be re-randomised at any time and must keep its value (judged where the key is used and,
+        // through the extracted bytes, right here); half of the endpoints do it before their first packet
+        if ((e.key[0] ^ e.nonce[15]) & 1) {
+            uint8_t out[20];
+            if (alg == A80) { ascon_masked_key_160_randomize(&e.u.mk160); ascon_masked_key_160_extract(&e.u.mk160, out); }
+            else { ascon_masked_key_128_randomize(&e.u.mk128); ascon_masked_key_128_extract(&e.u.mk128, out); }
+            g_mask_extract_bad |= memcmp(out, k, e.key.size()) != 0;
+        }
         break;
     case ISAP:
         if (re) { if (alg == A128) ascon128_isap_aead_free(&e.u.ik128); else if (alg == A128A) ascon128a_isap_aead_free(&e.u.ik128a); else ascon80pq_isap_aead_free(&e.u.ik80); }
@@ -532,6 +542,7 @@ struct ChannelWorld : World {
         ep_setup(S.A, S.fam, key, n, kp);
         ep_setup(S.B, S.fam, key, n, is_cpp(S.fam) ? (int)((op.u(4) >> 1) % 2) : 0);
         if (c.record && kp) c.run->probe("cpp.key_constructor");
+        if (g_mask_extract_bad) { if (c.record) c.run->violation("C10", "randomize_then_extract_returns_key", fam_name(S.fam), "a masked key that was re-randomised no longer extracts to the key it was made from"); g_mask_extract_bad = false; }
         if (c.record) c.run->state(fmt("sess/%d/%u", S.fam, (unsigned)(op.u(3) % 17)));
     }
 
@@ -774,6 +785,7 @@ struct ChannelWorld : World {
             E.calibrated = false;
         }
         if (who != 2 && c.record) c.run->fault("net.key_mismatch");
+        if (g_mask_extract_bad) { if (c.record) c.run->violation("C10", "randomize_then_extract_returns_key", fam_name(S.fam), "a masked key that was re-randomised no longer extracts to the key it was made from"); g_mask_extract_bad = false; }
     }
 
     static void do_nonce(Ctx &c, const Op &op)
